@@ -68,6 +68,7 @@ type Case struct {
 	Cert      bool         `json:"cert"`  // header number 32768 (certificate round)
 	Round     uint64       `json:"round"` // header number otherwise
 	CheckBase bool         `json:"check_base"`
+	ViaChain  bool         `json:"via_chain"` // also verify through Server.VerifyHeader on a ChainReader (look-backs resolved by the engine)
 	Edits     []Edit       `json:"edits"`
 }
 
@@ -78,7 +79,8 @@ var editKinds = []string{"drop", "drop", "dropsig", "dup", "reproof", "wrongbloc
 func genCase(t *rapid.T) Case {
 	c := Case{Params: rapid.IntRange(0, 2).Draw(t, "params"), Seed: rapid.Uint8().Draw(t, "seed")}
 	c.Cert = rapid.IntRange(0, 3).Draw(t, "cert") == 0
-	c.Round = uint64(rapid.IntRange(2, 200).Draw(t, "round"))
+	c.Round = uint64(rapid.IntRange(10, 200).Draw(t, "round"))
+	c.ViaChain = rapid.Bool().Draw(t, "viachain")
 	c.CheckBase = rapid.IntRange(0, 3).Draw(t, "checkbase") == 0
 	T := triples[c.Params][1]
 	if c.Cert {
@@ -632,8 +634,15 @@ func runCase(c Case) kit.Result {
 	if c.Cert {
 		w.number = certRound
 	}
-	w.seed = keccak([]byte("seed"), []byte{c.Seed})
-	w.certSeed = keccak([]byte("cert seed"), []byte{c.Seed})
+	// the look-back headers live in a synthetic header table behind consensus.ChainReader, so the
+	// same header can be verified with explicit look-backs (VerifySideChainHeader, as the side-chain
+	// import does) and through VerifyHeader, where the engine resolves seed / stake / certificate
+	// look-backs itself
+	ypc := params.Versions[version(c.Params)]
+	chain := uk.NewFakeChain(set, &ypc, w.number-1, c.Seed)
+	chain.HeaderVersion = version(c.Params)
+	w.seed = chain.SeedOf(w.number - ypc.SeedLookBack)
+	w.certSeed = chain.SeedOf(0)
 	w.hdrTh = w.trip
 	w.certHdrT = w.trip[2]
 	for i, sp := range c.Vals {
@@ -677,15 +686,13 @@ func runCase(c Case) kit.Result {
 		}
 	}
 
-	panicked := false
+	panicked, viaChainOnly, viaChainAccepts, sideOnly := false, false, 0, ""
 	srv, err := ucon.NewVRFServer(youdb.NewMemDatabase())
 	if err != nil {
 		return kit.Discarded("server: " + err.Error())
 	}
 	cp := params.Versions[version(c.Params)].CaravelParams
-	parent := uk.NewHeader(nil, w.number-1)
-	parent.Time = 1000
-	parent.CurrVersion = version(c.Params)
+	parent := chain.CurrentHeader()
 	parentBlock := types.NewBlockWithHeader(parent)
 
 	assemble := func() (*types.Block, *types.Header, *types.Header) {
@@ -745,7 +752,7 @@ func runCase(c Case) kit.Result {
 			h.Certificate = cb
 		}
 		uk.SealHeader(h, w.propKey)
-		seedHeader := uk.SeedHeader(w.number-1, w.seed, set.ValRoot, w.trip[2], version(c.Params))
+		seedHeader := chain.GetHeaderByNumber(w.number - ypc.SeedLookBack)
 		var certHeader *types.Header
 		if c.Cert {
 			certHeader = uk.SeedHeader(0, w.certSeed, set.ValRoot, w.certHdrT, version(c.Params))
@@ -766,9 +773,25 @@ func runCase(c Case) kit.Result {
 		}()
 		blk, seedHeader, certHeader := assemble()
 		if c.Cert {
-			return srv.VerifySideChainHeader(&cp, seedHeader, set.Reader, certHeader, set.Reader, blk, []*types.Block{parentBlock})
+			err = srv.VerifySideChainHeader(&cp, seedHeader, set.Reader, certHeader, set.Reader, blk, []*types.Block{parentBlock})
+		} else {
+			err = srv.VerifySideChainHeader(&cp, seedHeader, set.Reader, nil, nil, blk, []*types.Block{parentBlock})
 		}
-		return srv.VerifySideChainHeader(&cp, seedHeader, set.Reader, nil, nil, blk, []*types.Block{parentBlock})
+		if c.ViaChain {
+			// second entry: the header-chain path. Acceptance by EITHER path is an acceptance.
+			err2 := srv.VerifyHeader(chain, blk.Header(), true)
+			if err2 == nil {
+				viaChainAccepts++
+				if err != nil {
+					viaChainOnly = true
+				}
+				return nil
+			}
+			if err == nil {
+				sideOnly = fmt.Sprint(err2)
+			}
+		}
+		return err
 	}
 
 	labels := []string{fmt.Sprintf("params:%d", c.Params)}
@@ -841,6 +864,18 @@ func runCase(c Case) kit.Result {
 	}
 	if mustReject {
 		labels = append(labels, "must-reject")
+	}
+	if c.ViaChain {
+		labels = append(labels, "via-chain")
+	}
+	if viaChainOnly {
+		labels = append(labels, "accepted-by-VerifyHeader-only")
+	}
+	if viaChainAccepts > 0 {
+		labels = append(labels, "accepted-by-VerifyHeader")
+	}
+	if sideOnly != "" {
+		labels = append(labels, "accepted-by-side-path-only:"+sideOnly)
 	}
 	if near {
 		labels = append(labels, "near-quorum")
